@@ -361,7 +361,44 @@ def run(tier, seed):
             findings.append(Finding("C14", f"{kind}.generate: batch mean/variance {X.mean(1).tolist()} / {X.var(1).tolist()} but the density misfit describes has "
                                     f"{mean.tolist()} / {var.tolist()}", {"kind": "moments", "class": kind}, {"desc": desc}))
 
-    suites = [st, sh, sx, sd, sw, slw, sg]
+    # ---- bounds boxes ("for all ... bounds boxes") ---------------------------------------------------
+    sbx = Suite("C14.boxes", "box-bounded Normal (per-dimension, full), Laplace and Composite (own bounds): the share of generate(4000) columns that lie where misfit() is +inf, "
+                "and the integral of exp(-misfit) of a normalised 1-D bounded Normal / Laplace over its box (trapezoid rule on 20001 points); non-trivial = all")
+    D = _D()
+    rngb = np.random.default_rng(seed + 1414)
+    for ci in range(6 if thorough else 3):
+        d = rnd.choice([1, 2])
+        lo = np.array([[rnd.choice([-0.5, -1.0, 0.0])] for _ in range(d)])
+        hi = lo + np.array([[rnd.choice([0.8, 1.5])] for _ in range(d)])
+        kind = ["normaldiag", "laplace", "composite", "normalfull"][ci % 4]
+        if kind == "normaldiag":
+            obj = D.Normal(np.zeros((d, 1)), np.ones((d, 1)), lower_bounds=lo.copy(), upper_bounds=hi.copy())
+        elif kind == "normalfull":
+            obj = D.Normal(np.zeros((d, 1)), np.eye(d) + 0.3 * (np.ones((d, d)) - np.eye(d)), lower_bounds=lo.copy(), upper_bounds=hi.copy())
+        elif kind == "laplace":
+            obj = D.Laplace(np.zeros((d, 1)), np.ones((d, 1)), lower_bounds=lo.copy(), upper_bounds=hi.copy())
+        else:
+            obj = D.CompositeDistribution([D.Normal(np.zeros((1, 1)), 1.0) for _ in range(d)], lower_bounds=lo.copy(), upper_bounds=hi.copy())
+        stim = {"class": kind, "d": d, "lower": lo.ravel().tolist(), "upper": hi.ravel().tolist()}
+        sbx.case(stim, nontrivial=True, sample=stim if len(sbx.samples) < 2 else None)
+        sbx.count(f"class={kind}")
+        with np.errstate(all="ignore"):
+            X = np.array(obj.generate(4000, rng=rngb), dtype=float)
+            zero_density = sum(1 for j in range(X.shape[1]) if float(obj.misfit(X[:, [j]])) == np.inf)
+        problems = []
+        if zero_density:
+            problems.append(f"{zero_density} of {X.shape[1]} columns of generate() lie outside the box, where misfit() is +inf (density zero)")
+        if d == 1 and kind in ("normaldiag", "laplace"):
+            obj.normalize()
+            xs = np.linspace(lo[0, 0], hi[0, 0], 20001)
+            dens = np.array([math.exp(-float(obj.misfit(np.array([[x]])))) for x in xs])
+            integral = float(np.sum((dens[1:] + dens[:-1]) * 0.5 * np.diff(xs)))
+            if abs(integral - 1.0) > 1e-3:
+                problems.append(f"after normalize() exp(-misfit) integrates to {integral:.4f} over the support [{lo[0, 0]}, {hi[0, 0]}], not to one")
+        if problems:
+            findings.append(Finding("C14", f"box-bounded {kind}: " + "; ".join(problems), {"kind": "box-ignored-by-generate-and-normalize"}, {"oracle": "boxes", "stimulus": stim, "problems": problems}))
+
+    suites = [st, sh, sx, sd, sw, slw, sg, sbx]
     # ---- thorough: large batches vs closed-form moments (supporting) -----------------------------
     if thorough:
         sm = Suite("C14.moments", "large i.i.d. batches of generate() vs closed-form first/second moments (|z| < 6): supporting evidence for 'columns are distributed "
